@@ -285,6 +285,14 @@ func runCaseOnce(ctx *common.Ctx, id int64, dir string, b built, limit time.Dura
 
 func Run(ctx *common.Ctx) {
 	defineTr()
+	// slip registers a placeholder function for an unknown name the first time a definition body mentions
+	// it (function.go CompileList); from then on a call of that name is an ordinary call that signals
+	// undefined-function. Before that, the call fails while the enclosing form compiles its argument, with a
+	// bare condition that ignore-errors swallows differently. The generated programs must not depend on
+	// which of them ran first, so the placeholder is registered up front (order of definition is C08's).
+	if o := common.EvalIn(slip.NewScope(), "(defun c07-warm () (undefined-fn-xyz))"); o.Err != "" {
+		panic("warm-up defun failed: " + o.Err + " " + o.Msg)
+	}
 	dir, err := os.MkdirTemp("", "c07files")
 	if err != nil {
 		panic(err)
@@ -322,7 +330,7 @@ func Run(ctx *common.Ctx) {
 	wrap := func(g *gen, d int) built {
 		// most programs sit inside a block and / or a tagbody with a later tag, so that an exit of each kind
 		// has a target whatever the depth
-		w := []string{"none", "block", "tagbody", "block-tagbody", "tagbody-block"}[g.rng.Intn(5)]
+		w := []string{"none", "block", "tagbody", "block-tagbody", "tagbody-block", "block-last", "none"}[g.rng.Intn(7)]
 		return built{g: g, main: wrapIn(g, d, w), vars: []int64{int64(g.rng.Intn(3)), int64(g.rng.Intn(3))}}
 	}
 	// (1) systematic family: every form kind x position x exit kind, one level and two levels deep,
@@ -402,10 +410,16 @@ func wrapIn(g *gen, d int, w string) *Form {
 	}
 	g.nextTag++
 	tt := g.nextTag
+	adjacent := g.rng.Chance(40) // the tag directly after the statement that exits
 	tagbody := func(f *Form) *Form {
+		if adjacent {
+			return &Form{K: "Tagbody", Items: []Item{{F: stmt(f)}, {IsTag: true, Tag: tt}, {F: g.tr()}}}
+		}
 		return &Form{K: "Tagbody", Items: []Item{{F: stmt(f)}, {F: g.tr()}, {IsTag: true, Tag: tt}, {F: g.tr()}}}
 	}
 	switch w {
+	case "block-last": // the value of the nest is the value of the program
+		return &Form{K: "Block", N: bt, A: []*Form{g.tr(), g.spine(d, gctx{vb: []int64{bt}, R: []int64{bt}, pb: true})}}
 	case "block":
 		return &Form{K: "Block", N: bt, A: []*Form{g.spine(d, gctx{vb: []int64{bt}, R: []int64{bt}, pb: true}), g.tr()}}
 	case "tagbody":
@@ -424,6 +438,8 @@ func sysWrap(g *gen, d int) built {
 	w := "block"
 	if g.forceExit == "go" {
 		w = "tagbody"
+	} else if g.rng.Chance(50) {
+		w = "block-last"
 	}
 	return built{g: g, main: wrapIn(g, d, w), vars: []int64{0, 0}}
 }
